@@ -131,9 +131,9 @@ package vm
 //@   checks panic [C05]
 //@   requires[code_wf;C05] vm != nil && vm.main != nil && codeWF(vm.CR.CS, vm.CR.DS)
 //@   modifies *
-//@   loop 0 invariant[code] cs == vm.CR.CS && ds == vm.CR.DS && codeWF(cs, ds)
-//@   loop 1 invariant[rcont] cs == vm.CR.CS && ds == vm.CR.DS && codeWF(cs, ds) && (forall j :: lo <= j && j < i ==> !imhas(ctxp.children, hashContext(m, j)))
-//@   loop 2 invariant[dcont] cs == vm.CR.CS && ds == vm.CR.DS && codeWF(cs, ds) && (forall j :: lo__2 <= j && j < i__3 ==> !imhas(ctxp.children, hashContext(m, j)))
+//@   loop 0 invariant[code] cs == vm.CR.CS && ds == vm.CR.DS && codeWF(cs, ds) && vm.stdin == old(vm.stdin)
+//@   loop 1 invariant[rcont] cs == vm.CR.CS && ds == vm.CR.DS && codeWF(cs, ds) && vm.stdin == old(vm.stdin) && (forall j :: lo <= j && j < i ==> !imhas(ctxp.children, hashContext(m, j)))
+//@   loop 2 invariant[dcont] cs == vm.CR.CS && ds == vm.CR.DS && codeWF(cs, ds) && vm.stdin == old(vm.stdin) && (forall j :: lo__2 <= j && j < i__3 ==> !imhas(ctxp.children, hashContext(m, j)))
 //
 // C10: the array built by an array-literal step is new storage, whatever its operands were.
 //@   atcall value.NewArray(slc) with (callee_a []value.Type) requires[array_is_fresh;C10] fresh(callee_a)
@@ -150,6 +150,11 @@ package vm
 //
 // C17: aton refuses a string only when it is neither an integer nor a float literal.
 //@   atcall vm.dumpStack(ctxp, ip, ErrConversion, val) with (callee_ip int) requires[conversion_error_only_if_unparsable;C17] !atoiOK(string(sv)) && !parseFloatOK(string(sv))
+//
+// C17: successive read() calls return successive lines without losing any. A buffered reader may have
+// taken more than one line from standard input; what it holds is lost with it, so the reader READ
+// uses must outlive the instruction: it is the reader the machine was created with.
+//@   atcall ReadString with (callee_b *bufio.Reader) requires[reader_outlives_read;C17] callee_b == old(vm.stdin)
 //
 // C19: the report is about the instruction that failed.
 //@   atcall vm.dumpStack with (callee_ip int, callee_err error) requires[report_points_at_failure;C19] callee_ip == ip && callee_err != nil
